@@ -272,6 +272,57 @@ theorem C17_wfq_fair_partial (ws : AMap Nat) (pre mid : List Op) (hpre : Basic p
   have := max_le li lj
   linarith
 
+/-! The statement's bound does NOT hold for all operation lists. Witness (three streams; weights
+1, 3, 3; all chunks 3 bytes): stream 0 pushes one chunk (tag 3) and `peek` selects it; nothing is
+popped (as when cwnd is full). Stream 1 now pushes four chunks: tags 1, 2, 3, 4 — below the selected
+tag. The pop serves the stale selection, the virtual time jumps to 3. Stream 2 becomes backlogged
+(tag 4). Streams 1 and 2 have equal weights and are both backlogged from here on, yet the next three
+pops all serve stream 1: `|S_1/w_1 − S_2/w_2| = 3 > 2 = L/w_1 + L/w_2`. The same run with larger
+numbers is `corpus/C17/known/wfq_stale_peek_three_streams.ops`, replayed on the Go code by the check. -/
+
+private def ch (id sid len : Nat) : Chunk := ⟨id, sid, false, true, true, len⟩
+private def wW : AMap Nat := [(0, 1), (1, 3), (2, 3)]
+private def preW : List Op :=
+  [.push (ch 0 0 3), .peek, .push (ch 1 1 3), .push (ch 2 1 3), .push (ch 3 1 3), .push (ch 4 1 3), .pop,
+   .push (ch 5 2 3)]
+private def midW : List Op := [.pop, .pop, .pop]
+
+/-- evaluation of a concrete run over `Rat` by `norm_num` (kernel-checked; `decide` cannot reduce `Rat`) -/
+macro "eval_run" : tactic => `(tactic|
+  norm_num [wfqFresh, wW, preW, midW, ch, PQ.new, PQ.setInterleaving, PQ.run, PQ.step, PQ.push, PQ.peek, PQ.pop,
+    PQ.policyPush, PQ.policyPeek, PQ.policyPop, WFQ.new, WFQ.push, WFQ.peek, WFQ.pop, WFQ.select, WFQ.selStep,
+    WFQ.weightOf, WFQ.weightNat, WFQ.headOfSel, WFQ.wt, WFQ.sq, AMap.get, AMap.set, AMap.replace, AMap.insertSorted,
+    AMap.erase, AMap.keys, gmax, Num.add, Num.div, Num.lt, Num.beq, Num.ofNat, Num.finite, popsOf, pushesOf, served,
+    lenSum, PQ.AllStates, PQ.backlogged, Policy.streamQ, PQ.Atomic])
+
+theorem C17_wfq_stated_bound_fails_with_stale_peek :
+    ∃ (ws : AMap Nat) (pre mid : List Op) (i j Li Lj : Nat), Basic pre ∧ Basic mid ∧
+      (∀ c ∈ pushesOf ((wfqFresh ws).run (pre ++ mid)).2, c.sid = i → c.len ≤ Li) ∧
+      (∀ c ∈ pushesOf ((wfqFresh ws).run (pre ++ mid)).2, c.sid = j → c.len ≤ Lj) ∧
+      PQ.AllStates (fun q => q.backlogged i ∧ q.backlogged j) ((wfqFresh ws).run pre).1 mid ∧
+      ¬ (|(served (((wfqFresh ws).run pre).1.run mid).2 i : Rat) / WFQ.wt (WFQ.new ws : WFQ Rat) i -
+          (served (((wfqFresh ws).run pre).1.run mid).2 j : Rat) / WFQ.wt (WFQ.new ws : WFQ Rat) j| ≤
+        (Li : Rat) / WFQ.wt (WFQ.new ws : WFQ Rat) i + (Lj : Rat) / WFQ.wt (WFQ.new ws : WFQ Rat) j) := by
+  refine ⟨wW, preW, midW, 1, 2, 3, 3, by unfold Basic; decide, by unfold Basic; decide, ?_, ?_, ?_, ?_⟩
+  · eval_run
+  · eval_run
+  · eval_run; decide
+  · have h1 : served (((wfqFresh wW).run preW).1.run midW).2 1 = 9 := by eval_run
+    have h2 : served (((wfqFresh wW).run preW).1.run midW).2 2 = 0 := by eval_run
+    have h3 : WFQ.wt (WFQ.new wW : WFQ Rat) 1 = 3 := by eval_run
+    have h4 : WFQ.wt (WFQ.new wW : WFQ Rat) 2 = 3 := by eval_run
+    rw [h1, h2, h3, h4]; norm_num
+
+-- `C17_wfq_fair_atomic_partial` is not vacuous: the same pushes without the stale `peek` are an atomic
+-- run in which streams 1 and 2 stay backlogged
+private def preA : List Op :=
+  [.push (ch 0 0 3), .push (ch 1 1 3), .push (ch 2 1 3), .push (ch 3 1 3), .push (ch 4 1 3), .pop,
+   .push (ch 5 2 3), .push (ch 6 2 3)]
+example : PQ.Atomic (wfqFresh wW) (preA ++ [.pop, .pop]) := by
+  norm_num [preA]; eval_run
+example : PQ.AllStates (fun q => q.backlogged 1 ∧ q.backlogged 2) ((wfqFresh wW).run preA).1 [.pop, .pop] := by
+  norm_num [preA]; eval_run; decide
+
 -- the theorems above are not vacuous: a run that fragments, switches mode and interleaves
 private def exOps : List Op :=
   [.push ⟨0, 1, false, true, false, 5⟩, .push ⟨1, 1, false, false, true, 3⟩, .pop, .setil true, .pop, .setil true,
